@@ -160,10 +160,10 @@ type GCPlan struct {
 	FailAt      int    `json:"fail_at"` // range task: the n-th handler call fails (-1: none)
 	// CancelInCall (with FailAt >= 0): the failure of that call is the caller's context being cancelled while the
 	// handler runs - the handler returns the context's error
-	CancelInCall bool `json:"cancel_in_call,omitempty"`
-	DelLo       string `json:"del_lo"`
-	DelHi       string `json:"del_hi"`
-	DeleteRange bool   `json:"delete_range"`
+	CancelInCall bool   `json:"cancel_in_call,omitempty"`
+	DelLo        string `json:"del_lo"`
+	DelHi        string `json:"del_hi"`
+	DeleteRange  bool   `json:"delete_range"`
 }
 
 // ReadPlan drives the snapshot readers of C05: the concrete reads are drawn at run
